@@ -50,6 +50,13 @@ def make_classes():
         def root_attr(self):
             return self.r
 
+        # attributes whose VALUE is falsy / None (an unset transform, an empty name ...): delegation is about the
+        # attribute, not about its truth value
+        root_none = None
+        root_zero = 0
+        root_empty = ""
+        root_false = False
+
         def dispose(self):
             self.disposed += 1
 
@@ -214,12 +221,17 @@ def observe(p, terms, objs, lens):
         lookup = lookup and o.has_wrapper(w) and o.has_wrapper_type(type(w)) and w in o.get_wrappers_of_type(type(w))
     lookup = lookup and [type(w) for w in wr] == o.all_wrapper_types and not o.has_wrapper(object())
     attr = o.root_attr if t["k"] != "root" else o.r
+    try:
+        attrf = (o.root_none is None and o.root_zero == 0 and type(o.root_zero) is int and o.root_empty == ""
+                 and o.root_false is False)
+    except AttributeError:
+        attrf = False
     shape = o.getshape_x()[0]
     shape = shape if o.getdim_x() == shape else -1
     with o:
         pass  # __exit__ -> dispose
     return dict(a="obs", p=p, len=n, items=items, negs=negs, getall=gal, garef=garef, helpers=bool(helpers), mw=mwl,
-                root=root_r, wrappers=wrappers, lookup=bool(lookup), attr=int(attr),
+                root=root_r, wrappers=wrappers, lookup=bool(lookup), attr=int(attr), attrf=bool(attrf),
                 shape=int(shape), disposed=[rt.r for rt in roots if rt.disposed > 0])
 
 
